@@ -40,15 +40,23 @@ RULE = (
 ASSUMPTIONS = [
     'numpy long double (x87 80 bit) evaluates the clipping of a ray against rho<=r, 0<=z<=h with '
     'error far below 64 eps (cross-checked per call by a sampled inside test in a frame-free '
-    'formulation and per shard against mpmath)',
+    'formulation and per run against mpmath at 50 digits incl. far origins, thin solids and '
+    'directions close to the axis)',
     'a path length is accepted iff it lies between the lengths through the solid shrunk and grown '
-    'by 64 eps (|p-base|+r+h): rays lying within that distance of a cap plane or of the lateral '
-    'surface along their length are therefore undecided (counted)',
+    'by 64 eps (|p-base|+r+h); this gives the sqrt(eps)(r+h) behaviour for tangent rays by itself; '
+    'rays lying within that distance of a cap plane or of the lateral surface along their length '
+    'are undecided (counted)',
+    'near-parallel class (direction within 1e-7 rad of the axis direction, exact parallels '
+    'included): the lateral surface is located only to sqrt(eps)(|p-base|+r+h), the bound DESIGN '
+    'gives for that class; such rays are decided unless they run within that distance of the '
+    'lateral surface',
     '"low-degree" = degree <= 1 (the degree all three kinds integrate to the 8 digits of the '
-    'tabulated disk rules); higher moments are reported only',
+    'tabulated disk rules); second moments are reported only',
     'the canonical multiset of a kind is what the code itself returns for axis +z, base 0 and the '
     'same radius/height objects (an observation compared with an observation)',
     'mu = n (sigma_s + sigma_a lambda / 1.7982 angstrom) (C20 owns the tables)',
+    'start point, base and height share one length unit (scipp refuses anything else); radius may '
+    'use another length unit for quadrature()',
 ]
 TIMEOUT_S = {'quick': 900, 'thorough': 3 * 3600}
 
